@@ -82,8 +82,14 @@ const c16Prefix = "haproxy-ingress.github.io"
 // ---------------------------------------------------------------- common
 
 func c16Sync(cache *conv_helper.CacheMock, trk convtypes.Tracker, global map[string]string, slices bool) haproxy.Config {
+	hcfg := haproxy.CreateInstance(&hvutil.Logger{}, haproxy.InstanceOptions{}).Config()
+	c16SyncOn(hcfg, cache, trk, global, slices)
+	return hcfg
+}
+
+// c16SyncOn: one full conversion of the cache into an EXISTING haproxy model (histories: c16hist.go)
+func c16SyncOn(hcfg haproxy.Config, cache *conv_helper.CacheMock, trk convtypes.Tracker, global map[string]string, slices bool) {
 	logger := &hvutil.Logger{}
-	hcfg := haproxy.CreateInstance(logger, haproxy.InstanceOptions{}).Config()
 	opts := &convtypes.ConverterOptions{
 		Cache:            cache,
 		Logger:           logger,
@@ -97,7 +103,6 @@ func c16Sync(cache *conv_helper.CacheMock, trk convtypes.Tracker, global map[str
 	}
 	changed := &convtypes.ChangedObjects{GlobalConfigMapDataNew: global, NeedFullSync: true}
 	converters.NewConverter(utils.NewTimer(nil), hcfg, changed, opts).Sync()
-	return hcfg
 }
 
 func c16AddService(cache *conv_helper.CacheMock, ns, name string, withEndpoints, slices bool, ready, notReady []api.EndpointAddress) {
@@ -280,8 +285,15 @@ func c16gwRun(kind string, refs []c16Ref) (out string) {
 			out = "PANIC"
 		}
 	}()
-	tcp, slices := kind[0] == 'T', kind[1] == 's'
 	trk := tracker.NewTracker()
+	cache := c16gwCache(kind, refs, trk)
+	hcfg := c16Sync(cache, trk, map[string]string{}, kind[1] == 's')
+	return c16gwRead(hcfg, kind, refs)
+}
+
+// c16gwCache: the cluster objects of a `gw` case
+func c16gwCache(kind string, refs []c16Ref, trk convtypes.Tracker) *conv_helper.CacheMock {
+	tcp, slices := kind[0] == 'T', kind[1] == 's'
 	cache := conv_helper.NewCacheMock(trk)
 	cache.GatewayClassList = append(cache.GatewayClassList, &gatewayv1.GatewayClass{
 		TypeMeta:   metav1.TypeMeta{APIVersion: "gateway.networking.k8s.io/v1", Kind: "GatewayClass"},
@@ -361,7 +373,12 @@ func c16gwRun(kind string, refs []c16Ref) (out string) {
 			},
 		})
 	}
-	hcfg := c16Sync(cache, trk, map[string]string{}, slices)
+	return cache
+}
+
+// c16gwRead: the servers the haproxy model holds for the route's backend, per backendRef
+func c16gwRead(hcfg haproxy.Config, kind string, refs []c16Ref) string {
+	tcp := kind[0] == 'T'
 	index := "_rule0"
 	if tcp {
 		index = "_tcprule0"
@@ -763,6 +780,9 @@ var _ = hatypes.DefaultHost
 // ---------------------------------------------------------------- replay
 
 func c16callersReplay(c *ctx, a []string) bool {
+	if c16histReplay(c, a) { // bgh / gwh case lines: c16hist.go
+		return true
+	}
 	switch {
 	case len(a) == 3 && a[0] == "gw" && len(a[1]) == 2:
 		if refs, ok := c16ParseRefs(a[2]); ok {
@@ -1378,4 +1398,6 @@ func runC16Callers(c *ctx) {
 	c16GwRandom(c, r.Fork(), ngw)
 	c16BgRandom(c, r.Fork(), nbg)
 	c16BgLabelRandom(c, r.Fork(), nlb)
+	// histories: the weights written after a second, third ... reconciliation (c16hist.go)
+	runC16Hist(c)
 }
